@@ -1916,8 +1916,11 @@ def stepLine (st : St) (toks : List String) : St × List String :=
     if !st.ok then (st, ["bad-op"]) else
     match parseOp st name rest, findInt "res" rest, findNat "late" rest with
     | some (op, k, a, bufs), some res, some late =>
-      if res ≤ -2147483648 ∨ res ≥ 2147483648 ∨ late > 1
-          ∨ (late = 1 ∧ (op = .close ∨ op = .dropfd))
+      -- late = 1: every builder method is called again after the first poll (and a re-issue is
+      -- forced); late = 2: between the processing of the completion and the poll that reads it.
+      -- Neither reaches the arguments (`C13_builder_frozen`: the status is not `NotStarted`).
+      if res ≤ -2147483648 ∨ res ≥ 2147483648 ∨ late > 2
+          ∨ (late ≥ 1 ∧ (op = .close ∨ op = .dropfd))
           -- `sys=`/`slen=` belong to lines whose completion carries a special error
           ∨ (((findKv "sys" rest).isSome ∨ (findKv "slen" rest).isSome)
               ∧ ¬ (res < 0 ∧ specialErr op (-res) = true)) then (st, ["bad-op"])
